@@ -45,6 +45,19 @@ def playback : SwarmAdv (List Nat) Unit Nat Unit Unit Unit :=
 def stepsOn (pat : List Nat) (thr : Rat) : Nat :=
   (runWorker (ratCode thr) playback () () pat.length [] pat).steps.length
 
+/-- distinct texts per attempt: `n + 1` copies of a letter -/
+def nthText (c : Char) (n : Nat) : String := String.ofList (List.replicate (n + 1) c)
+
+/-- a generator whose `n`-th output is `nthText 'r' n`, never accepted, the validator's `n`-th trace being
+    `nthText 't' n` (state: generator calls, validator calls) -/
+def countingHeal : HealAdv (Nat × Nat) Unit Unit :=
+  ⟨fun s _ _ => ((s.1 + 1, s.2), .ok (nthText 'r' s.1)),
+   fun s _ => ((s.1, s.2 + 1), .ok ⟨false, (), some (nthText 't' s.2), ()⟩)⟩
+
+/-- the error context the model shows to call `i` of a never-valid run with budget 4 -/
+def ctxShownTo (i : Nat) : Option (Option ErrCtx) :=
+  (heal unitOps ⟨4⟩ countingHeal (0, 0) "p").calls[i]?.map (·.ctx)
+
 /-- the retry is shown `min 200 n` characters of an `n`-character output -/
 theorem shownPrefix_length (l : List Char) : (shownPrefix (String.ofList l)).length = min 200 l.length := by
   simp [shownPrefix]
